@@ -1,4 +1,5 @@
 import FiberModel.C16.Refine
+import FiberModel.C16.Dead
 /-
 C16 — property theorems.
 
@@ -221,6 +222,107 @@ theorem token_was_issued (raw : List Bytes) (cfg : Cfg)
       have := (htok.1 id k d (mem_lookup _ id _ htok.2 he)).2.1
       rw [← ht]; exact this
 
+/-! ## Dead tokens stay dead; single use -/
+
+/-- **Dead stays dead.** With a key generator that never repeats: a token that was issued and is not
+    live after some history (expired, consumed by a single-use acceptance, deleted) is not live after
+    any continuation of that history either. -/
+theorem dead_token_stays_dead (raw : List Bytes) (cfg : Cfg)
+    (hbuild : buildLoop raw [] [] = some (cfg.origins, cfg.subs)) (hidle : 0 < cfg.idle)
+    (gen sgen : Nat → Bytes) (hgen : GenOK cfg gen sgen) (hinj : Function.Injective gen)
+    (ops1 ops2 : List Op) (hwf1 : OpsWf ops1) (hwf2 : OpsWf ops2) (t : Bytes) (s1 : SpecSt)
+    (hs1 : specEnd (specOf cfg raw) specInit ops1 (runObs cfg gen sgen {} ops1) = some s1)
+    (hiss : t ∈ s1.issued) (hdead : s1.liveAt t = false) :
+    ∃ s2, specEnd (specOf cfg raw) specInit (ops1 ++ ops2) (runObs cfg gen sgen {} (ops1 ++ ops2)) = some s2 ∧
+      t ∈ s2.issued ∧ s2.liveAt t = false := by
+  obtain ⟨s, hend, hinv, hli⟩ := history_state raw cfg hbuild hidle gen sgen hgen ops1 hwf1
+  rw [hs1] at hend
+  cases hend
+  obtain ⟨s2, hs2, _, _, hi2, hd2⟩ := run_dead_stays raw cfg hbuild gen sgen hgen.key_nonempty hinj
+    hgen.sid_nonempty hidle ops2 hwf2 _ s1 hinv hli t hiss hdead
+  refine ⟨s2, ?_, hi2, hd2⟩
+  rw [specEnd_append, hs1]
+  exact hs2
+
+/-- … hence an unsafe request presenting it is refused, however the history continues. -/
+theorem dead_token_never_accepted_again (raw : List Bytes) (cfg : Cfg)
+    (hbuild : buildLoop raw [] [] = some (cfg.origins, cfg.subs)) (hidle : 0 < cfg.idle)
+    (gen sgen : Nat → Bytes) (hgen : GenOK cfg gen sgen) (hinj : Function.Injective gen)
+    (ops1 ops2 : List Op) (hwf1 : OpsWf ops1) (hwf2 : OpsWf ops2) (s1 : SpecSt)
+    (hs1 : specEnd (specOf cfg raw) specInit ops1 (runObs cfg gen sgen {} ops1) = some s1)
+    (q : Req) (hwo : q.ourl.wf) (hwr : q.rurl.wf) (hunsafe : isSafe q.method = false)
+    (hiss : q.ck ∈ s1.issued) (hdead : s1.liveAt q.ck = false) :
+    (handle cfg gen sgen (after cfg gen sgen (ops1 ++ ops2)) q).2.pass = false := by
+  obtain ⟨s2, hs2, _, hd2⟩ := dead_token_stays_dead raw cfg hbuild hidle gen sgen hgen hinj ops1 ops2 hwf1 hwf2
+    q.ck s1 hs1 hiss hdead
+  exact dead_token_rejected raw cfg hbuild hidle gen sgen hgen (ops1 ++ ops2) (opsWf_append _ _ hwf1 hwf2)
+    q hwo hwr hunsafe s2 hs2 hd2
+
+/-- **Single use.** With `SingleUseToken` and a generator that never repeats: once an unsafe request
+    has reached the handler, the token it presented is issued but no longer live … -/
+theorem single_use_consumed (raw : List Bytes) (cfg : Cfg)
+    (hbuild : buildLoop raw [] [] = some (cfg.origins, cfg.subs)) (hidle : 0 < cfg.idle)
+    (gen sgen : Nat → Bytes) (hgen : GenOK cfg gen sgen) (hinj : Function.Injective gen)
+    (ops : List Op) (hwf : OpsWf ops) (q : Req) (hwo : q.ourl.wf) (hwr : q.rurl.wf)
+    (hunsafe : isSafe q.method = false) (hsingle : cfg.single = true)
+    (hpass : (handle cfg gen sgen (after cfg gen sgen ops) q).2.pass = true) :
+    ∃ s', specEnd (specOf cfg raw) specInit (ops ++ [.req q]) (runObs cfg gen sgen {} (ops ++ [.req q])) = some s' ∧
+      q.ck ∈ s'.issued ∧ s'.liveAt q.ck = false := by
+  obtain ⟨s, hend, hinv, hli⟩ := history_state raw cfg hbuild hidle gen sgen hgen ops hwf
+  obtain ⟨s', hs, _⟩ := handle_refines raw cfg hbuild gen sgen hgen.key_nonempty hgen.key_fresh
+    hgen.sid_nonempty hidle _ s q hwo hwr hinv
+  obtain ⟨_, _, t, _, hne, htq, hlive, _, _⟩ := specReq_ok_unsafe_pass _ s q _ s' hs hunsafe hpass
+  have hq : q.ck ∈ s.issued := by
+    rw [← htq]
+    unfold SpecSt.liveAt at hlive
+    split at hlive
+    · rename_i l hl; exact hli t l hl
+    · cases hlive
+  have hnew := gens_new cfg gen sgen hinj _ s q hinv
+  have hck : ∀ t', (obsOf cfg (handle cfg gen sgen (after cfg gen sgen ops) q).1
+      (handle cfg gen sgen (after cfg gen sgen ops) q).2).ck = some t' → t' ≠ q.ck := by
+    intro t' ht'
+    have ht'' : (handle cfg gen sgen (after cfg gen sgen ops) q).2.ck = some t' := ht'
+    rcases handle_single_ck cfg gen sgen _ q hunsafe hsingle hpass with h | h
+    · rw [h] at ht''
+      cases ht''
+      intro e
+      obtain ⟨i, hi, he⟩ := (hinv.issued q.ck).mp hq
+      rw [← e] at he
+      have := hinj he
+      omega
+    · rw [h] at ht''
+      cases ht''
+      intro e
+      exact hne (htq.trans e.symm)
+  obtain ⟨hd', hi'⟩ := specReq_single_consumes _ s q _ s' hs hunsafe hpass (by simp [specConfig, hsingle]) hq hnew hck
+  refine ⟨s', ?_, hi', hd'⟩
+  rw [specEnd_append, hend]
+  exact specEnd_one _ cfg gen sgen _ s s' q hs
+
+/-- … and is never accepted again: any later unsafe request presenting that token is refused. -/
+theorem single_use_never_replayed (raw : List Bytes) (cfg : Cfg)
+    (hbuild : buildLoop raw [] [] = some (cfg.origins, cfg.subs)) (hidle : 0 < cfg.idle)
+    (gen sgen : Nat → Bytes) (hgen : GenOK cfg gen sgen) (hinj : Function.Injective gen)
+    (ops later : List Op) (hwf : OpsWf ops) (hwf2 : OpsWf later) (q : Req) (hwo : q.ourl.wf) (hwr : q.rurl.wf)
+    (hunsafe : isSafe q.method = false) (hsingle : cfg.single = true)
+    (hpass : (handle cfg gen sgen (after cfg gen sgen ops) q).2.pass = true)
+    (q' : Req) (hwo' : q'.ourl.wf) (hwr' : q'.rurl.wf) (hunsafe' : isSafe q'.method = false)
+    (hsame : q'.ck = q.ck) :
+    (handle cfg gen sgen (after cfg gen sgen ((ops ++ [.req q]) ++ later)) q').2.pass = false := by
+  obtain ⟨s', hs', hi', hd'⟩ := single_use_consumed raw cfg hbuild hidle gen sgen hgen hinj ops hwf q hwo hwr
+    hunsafe hsingle hpass
+  have hwf1 : OpsWf (ops ++ [.req q]) := by
+    apply opsWf_append _ _ hwf
+    intro x hx
+    have : x = q := by simpa using hx
+    rw [this]; exact ⟨hwo, hwr⟩
+  have hi'' : q'.ck ∈ s'.issued := by rw [hsame]; exact hi'
+  have hd'' : s'.liveAt q'.ck = false := by rw [hsame]; exact hd'
+  have h := dead_token_never_accepted_again raw cfg hbuild hidle gen sgen hgen hinj (ops ++ [.req q]) later hwf1 hwf2
+    s' hs' q' hwo' hwr' hunsafe' hi'' hd''
+  exact h
+
 /-! ## The origin checks -/
 
 /-- **Origin / Referer checks are sound.** For any configuration the constructor accepted, whenever
@@ -351,6 +453,10 @@ example : passes (cfgT .sessStore false)
     [.req (get [] []), .req (post (genT 0) (sgenT 0) (genT 0)), .req (post (genT 0) [] (genT 0)),
      .req { get (genT 0) (sgenT 0) with del := true }, .req (post (genT 0) (sgenT 0) (genT 0))]
     = [some true, some true, some false, some true, some false] := by decide
+
+/-- `single_use_never_replayed` / `dead_token_never_accepted_again`: their extra hypothesis (a generator
+    that never repeats) holds for the example generator, for every back-end -/
+example : Function.Injective genT := fun n m h => by simp [genT] at h; exact h
 
 /-- the oracle is not vacuous: it accepts the model's observations of a history with a forged token and
     flags the same observations once the forged request is reported as having reached the handler -/
